@@ -1,6 +1,7 @@
 // Native replay for C01 against the REAL STIR libraries of /repo's working tree.
 // usage: c01_replay tables <num_detectors_per_ring> [<view_mashing>]
 //        c01_replay rings  <num_rings> <span> <max_delta>
+//        c01_replay ringsn <scanner name> <span> <max_delta (-1: all)>   the same on a predefined scanner (its own ring spacing)
 //        c01_replay tof    <tof_mash_factor>
 //        c01_replay allpairs <num_detectors_per_ring> <view_mashing> <tof_mash_factor (0: non-TOF scanner)>
 // exit 0: property holds on everything enumerated; exit 1 + "CONFIRMED ..." line: violated; other: driver problem
@@ -79,10 +80,11 @@ static int tables(int N, int mash)
   return 0;
 }
 
-static int rings(int R, int span, int max_delta)
+static int rings(int R, int span, int max_delta, const char* scanner_name = 0)
 {
-  shared_ptr<Scanner> scanner(new Scanner(Scanner::E953));
-  scanner->set_num_rings(R);
+  shared_ptr<Scanner> scanner(scanner_name ? Scanner::get_scanner_from_name(scanner_name) : new Scanner(Scanner::E953));
+  if (scanner_name) { R = scanner->get_num_rings(); if (max_delta < 0) max_delta = R - 1; }
+  else scanner->set_num_rings(R);
   auto pdi = make(scanner, span, max_delta, 8, 9);
   if (!pdi) return 3;
   std::map<std::pair<int, int>, std::vector<std::pair<int, int>>> lists; // (seg,ax) -> reported ring pairs
@@ -187,6 +189,7 @@ int main(int argc, char** argv)
     {
       if (argc >= 3 && !strcmp(argv[1], "tables")) return tables(atoi(argv[2]), argc > 3 ? atoi(argv[3]) : 1);
       if (argc >= 5 && !strcmp(argv[1], "rings")) return rings(atoi(argv[2]), atoi(argv[3]), atoi(argv[4]));
+      if (argc >= 5 && !strcmp(argv[1], "ringsn")) return rings(0, atoi(argv[3]), atoi(argv[4]), argv[2]);
       if (argc >= 3 && !strcmp(argv[1], "tof")) return tof(atoi(argv[2]));
       if (argc >= 5 && !strcmp(argv[1], "allpairs")) return allpairs(atoi(argv[2]), atoi(argv[3]), atoi(argv[4]));
     }
